@@ -1,5 +1,157 @@
-From Coq Require Import NArith.
-From ADF Require Import Gen.GenFlags Gen.TieFlagDepth.
+(** C12 - Answers are independent of the cargo feature configuration.
+    Statements only; proofs in Bdd/Cfg.v, Adf/CfgProofs.v, Adf/CfgSearch.v.  A configuration [cfg] is
+    what the cfg attributes of lib/src/obdd.rs select: ad-hoc counting off / paths only / paths and models
+    ([adhoc] = 0, 1, 2) and variable lists on / off; the model's functions take it as a parameter and
+    branch on it exactly where the source has a cfg-split body.  The feature tables [g_features_lib]
+    are REGENERATED from lib/Cargo.toml on every run (Gen/GenFeatures.v); the frontend feature selects
+    no alternative implementation of a modelled function. *)
+From Coq Require Import NArith List Bool String.
+From ADF Require Import Spec.Spec Gen.GenFlags Gen.GenFeatures Gen.TieFlagDepth Bdd.Store Bdd.WF Bdd.Node Bdd.Ops Bdd.Canon Bdd.Counts Bdd.Cfg
+  Adf.Native Adf.NativeBase Adf.NativeExamples Adf.Search Adf.Bio Adf.CfgProofs Adf.CfgSearch Adf.NgSearchProofs.
+Import ListNotations.
+Local Open Scope N_scope.
+
+(** the fallback of max_depth counts the level of the node itself (the defect repaired in /repo) *)
 Theorem C12_depth_fallback_counts_levels : g_depth_plus = 1%N.
 Proof. exact depth_fallback_counts_levels. Qed.
 Print Assumptions C12_depth_fallback_counts_levels.
+
+(** the feature tables of the source: every one of the 2^8 feature selections yields one of the six
+    configurations, each of the six is reached with and without "frontend" (12 combinations), and
+    "default" is (paths only, variable lists on) *)
+Theorem C12_feature_table_covers_the_configurations :
+  (forall s, In s Features.all_feature_sets ->
+     let e := Features.closure g_features_lib s in
+     (Features.enabled e "adhoccountmodels" = true -> Features.enabled e "adhoccounting" = true) /\
+     Features.closed_b g_features_lib s e = true /\ Features.sound_b g_features_lib s e = true /\
+     In (Features.cfg_of e) Features.all_cfgs) /\
+  (forall c fe, In c Features.all_cfgs -> exists s, In s Features.all_feature_sets /\
+     Features.cfg_of (Features.closure g_features_lib s) = c /\
+     Features.enabled (Features.closure g_features_lib s) "frontend" = fe) /\
+  Features.cfg_of (Features.closure g_features_lib ["default"%string]) = cfg_default /\
+  Features.enabled (Features.closure g_features_lib ["default"%string]) "frontend" = true /\
+  Features.cfg_of (Features.closure g_features_lib []) = mkCfg 0 false.
+Proof. exact Features.features_cover_cfg_space. Qed.
+Print Assumptions C12_feature_table_covers_the_configurations.
+
+(** diagrams: any program of operations yields THE SAME handles and THE SAME node table under any two
+    configurations (the differently written restrict of the variable-list build included) *)
+Theorem C12_same_handles_and_tables : forall c1 c2 p s1 regs1 s2 regs2,
+  run c1 (init c1, []) p = Some (s1, regs1) -> run c2 (init c2, []) p = Some (s2, regs2) ->
+  regs1 = regs2 /\ table_of s1 = table_of s2 /\ same_tables s1 s2.
+Proof. exact run_sim. Qed.
+Print Assumptions C12_same_handles_and_tables.
+
+(** queries: path counts, depth, model counts and dependency sets of every register agree; memoised
+    model counting is excluded exactly for the documented build (paths without models) *)
+Theorem C12_queries_agree : forall c1 c2 p s1 regs1 s2 regs2 k m1 m2,
+  adhoc c1 <= 2 -> adhoc c2 <= 2 ->
+  run c1 (init c1, []) p = Some (s1, regs1) -> run c2 (init c2, []) p = Some (s2, regs2) ->
+  snd (paths c1 s1 (reg regs1 k) m1) = snd (paths c2 s2 (reg regs2 k) m2) /\
+  max_depth c1 s1 (reg regs1 k) = max_depth c2 s2 (reg regs2 k) /\
+  ((adhoc c1 = 1 -> m1 = false) -> (adhoc c2 = 1 -> m2 = false) ->
+     snd (models c1 s1 (reg regs1 k) m1) = snd (models c2 s2 (reg regs2 k) m2)) /\
+  (forall v, In v (var_dependencies c1 s1 (reg regs1 k)) <-> In v (var_dependencies c2 s2 (reg regs2 k))).
+Proof. exact run_queries_cfg_independent. Qed.
+Print Assumptions C12_queries_agree.
+
+(** ... stated for the feature selections of Cargo.toml against the default build *)
+Theorem C12_every_feature_set_agrees_with_default : forall s p s1 regs1 s2 regs2 k m1 m2,
+  In s Features.all_feature_sets ->
+  let c := Features.cfg_of (Features.closure g_features_lib s) in
+  let d := Features.cfg_of (Features.closure g_features_lib ["default"%string]) in
+  run c (init c, []) p = Some (s1, regs1) -> run d (init d, []) p = Some (s2, regs2) ->
+  regs1 = regs2 /\ table_of s1 = table_of s2 /\
+  feq (den s1 (reg regs1 k)) (den s2 (reg regs2 k)) /\
+  snd (paths c s1 (reg regs1 k) m1) = snd (paths d s2 (reg regs2 k) m2) /\
+  max_depth c s1 (reg regs1 k) = max_depth d s2 (reg regs2 k) /\
+  ((adhoc c = 1%N -> m1 = false) -> m2 = false ->
+     snd (models c s1 (reg regs1 k) m1) = snd (models d s2 (reg regs2 k) m2)) /\
+  (forall v, In v (var_dependencies c s1 (reg regs1 k)) <-> In v (var_dependencies d s2 (reg regs2 k))).
+Proof. exact Features.feature_sets_agree_with_default. Qed.
+Print Assumptions C12_every_feature_set_agrees_with_default.
+
+(** the variable-impact measures the heuristics read *)
+Theorem C12_impacts_agree : forall c1 c2 s1 s2 tl1 tl2 v,
+  WF c1 s1 -> WF c2 s2 -> Forall2 (same_fun s1 s2) tl1 tl2 ->
+  passive_var_impact c1 s1 v tl1 = passive_var_impact c2 s2 v tl2 /\
+  active_var_impact c1 s1 v tl1 = active_var_impact c2 s2 v tl2.
+Proof. exact impact_cfg_independent. Qed.
+Print Assumptions C12_impacts_agree.
+
+(** ADFs: compilation yields the same conditions and table ... *)
+Theorem C12_compilation_agrees : forall c1 c2 n fs st1 ac1 st2 ac2,
+  N.of_nat n <= VBOT -> Forall (fun pf => atoms_lt (N.of_nat n) (snd pf)) fs ->
+  from_parser c1 n fs = Some (st1, ac1) -> from_parser c2 n fs = Some (st2, ac2) ->
+  ac1 = ac2 /\ table_of st1 = table_of st2 /\ same_tables st1 st2.
+Proof. exact from_parser_sim. Qed.
+Print Assumptions C12_compilation_agrees.
+
+(** ... and every semantics the same answers (as interpretations; complete: also the same first one) *)
+Theorem C12_grounded_agrees : forall c1 c2 n fs, N.of_nat n <= VBOT -> Forall (fun pf => atoms_lt (N.of_nat n) (snd pf)) fs ->
+  forall st1 ac1 st2 ac2, from_parser c1 n fs = Some (st1, ac1) -> from_parser c2 n fs = Some (st2, ac2) ->
+  forall s1' g1 s2' g2, grounded c1 st1 ac1 = Some (s1', g1) -> grounded c2 st2 ac2 = Some (s2', g2) ->
+  interp_of g1 = interp_of g2.
+Proof. exact grounded_cfg_independent. Qed.
+Print Assumptions C12_grounded_agrees.
+Theorem C12_complete_agrees : forall c1 c2 n fs, N.of_nat n <= VBOT -> Forall (fun pf => atoms_lt (N.of_nat n) (snd pf)) fs ->
+  forall st1 ac1 st2 ac2, from_parser c1 n fs = Some (st1, ac1) -> from_parser c2 n fs = Some (st2, ac2) ->
+  forall s1' l1 s2' l2, complete c1 st1 ac1 = Some (s1', l1) -> complete c2 st2 ac2 = Some (s2', l2) ->
+  (forall v, In v (map interp_of l1) <-> In v (map interp_of l2)) /\
+  hd_error (map interp_of l1) = hd_error (map interp_of l2).
+Proof. exact complete_cfg_independent. Qed.
+Print Assumptions C12_complete_agrees.
+Theorem C12_stable_agrees : forall c1 c2 n fs, N.of_nat n <= VBOT -> Forall (fun pf => atoms_lt (N.of_nat n) (snd pf)) fs ->
+  forall st1 ac1 st2 ac2, from_parser c1 n fs = Some (st1, ac1) -> from_parser c2 n fs = Some (st2, ac2) ->
+  forall s1' l1 s2' l2, stable c1 st1 ac1 = Some (s1', l1) -> stable c2 st2 ac2 = Some (s2', l2) ->
+  forall v, In v (map interp_of l1) <-> In v (map interp_of l2).
+Proof. exact stable_cfg_independent. Qed.
+Print Assumptions C12_stable_agrees.
+Theorem C12_stable_with_prefilter_agrees : forall c1 c2 n fs, N.of_nat n <= VBOT -> Forall (fun pf => atoms_lt (N.of_nat n) (snd pf)) fs ->
+  forall st1 ac1 st2 ac2, from_parser c1 n fs = Some (st1, ac1) -> from_parser c2 n fs = Some (st2, ac2) ->
+  forall s1' l1 s2' l2, stable_with_prefilter c1 st1 ac1 = Some (s1', l1) -> stable_with_prefilter c2 st2 ac2 = Some (s2', l2) ->
+  forall v, In v (map interp_of l1) <-> In v (map interp_of l2).
+Proof. exact stable_with_prefilter_cfg_independent. Qed.
+Print Assumptions C12_stable_with_prefilter_agrees.
+Theorem C12_biodivine_backend_agrees : forall c1 c2 n fs, N.of_nat n <= VBOT -> Forall (fun pf => atoms_lt (N.of_nat n) (snd pf)) fs ->
+  forall st1 ac1 st2 ac2, from_parser c1 n fs = Some (st1, ac1) -> from_parser c2 n fs = Some (st2, ac2) ->
+  (forall s1' g1 s2' g2, bio_grounded c1 st1 ac1 = Some (s1', g1) -> bio_grounded c2 st2 ac2 = Some (s2', g2) -> interp_of g1 = interp_of g2) /\
+  (forall s1' l1 s2' l2, bio_complete c1 st1 ac1 = Some (s1', l1) -> bio_complete c2 st2 ac2 = Some (s2', l2) ->
+     (forall v, In v (map interp_of l1) <-> In v (map interp_of l2)) /\ hd_error (map interp_of l1) = hd_error (map interp_of l2)) /\
+  (forall s1' l1 s2' l2, bio_stable c1 st1 ac1 = Some (s1', l1) -> bio_stable c2 st2 ac2 = Some (s2', l2) ->
+     forall v, In v (map interp_of l1) <-> In v (map interp_of l2)).
+Proof.
+  intros c1 c2 n fs B HA st1 ac1 st2 ac2 X1 X2. split; [|split].
+  - exact (bio_grounded_cfg_independent c1 c2 n fs B HA st1 ac1 st2 ac2 X1 X2).
+  - exact (bio_complete_cfg_independent c1 c2 n fs B HA st1 ac1 st2 ac2 X1 X2).
+  - exact (bio_stable_cfg_independent c1 c2 n fs B HA st1 ac1 st2 ac2 X1 X2).
+Qed.
+Print Assumptions C12_biodivine_backend_agrees.
+
+(** the two searches: the same models, whatever comparator / admissible heuristic, budget and draws on
+    either side; and the counting heuristics make the same choices (they read memoised PATH counts) *)
+Theorem C12_counting_search_agrees : forall c1 c2 n fs, N.of_nat n <= VBOT -> Forall (fun pf => atoms_lt (N.of_nat n) (snd pf)) fs ->
+  forall st1 ac1 st2 ac2, from_parser c1 n fs = Some (st1, ac1) -> from_parser c2 n fs = Some (st2, ac2) ->
+  forall heu1 heu2 s1' l1 s2' l2,
+  stable_count c1 heu1 ac1 false st1 = Some (s1', l1) -> stable_count c2 heu2 ac2 false st2 = Some (s2', l2) ->
+  NoDup (map interp_of l1) /\ NoDup (map interp_of l2) /\ forall v, In v (map interp_of l1) <-> In v (map interp_of l2).
+Proof. exact stable_count_cfg_independent. Qed.
+Print Assumptions C12_counting_search_agrees.
+Theorem C12_nogood_search_agrees : forall c1 c2 n fs, N.of_nat n <= VBOT -> Forall (fun pf => atoms_lt (N.of_nat n) (snd pf)) fs ->
+  forall st1 ac1 st2 ac2, from_parser c1 n fs = Some (st1, ac1) -> from_parser c2 n fs = Some (st2, ac2) ->
+  forall h1 rf1 h2 rf2 two sx1 sx2 b1 b2 d1 d2 s1' l1 r1 s2' l2 r2,
+  admissible c1 h1 rf1 -> admissible c2 h2 rf2 ->
+  nogood_search c1 ac1 h1 rf1 two sx1 b1 st1 d1 = Some (s1', l1, r1) ->
+  nogood_search c2 ac2 h2 rf2 two sx2 b2 st2 d2 = Some (s2', l2, r2) ->
+  NoDup (map interp_of l1) /\ NoDup (map interp_of l2) /\ forall v, In v (map interp_of l1) <-> In v (map interp_of l2).
+Proof. exact nogood_search_cfg_independent. Qed.
+Print Assumptions C12_nogood_search_agrees.
+Theorem C12_heuristics_choose_alike : forall c1 c2 n fs st1 ac1 st2 ac2,
+  adhoc c1 <= 2 -> adhoc c2 <= 2 ->
+  N.of_nat n <= VBOT -> Forall (fun pf => atoms_lt (N.of_nat n) (snd pf)) fs ->
+  from_parser c1 n fs = Some (st1, ac1) -> from_parser c2 n fs = Some (st2, ac2) ->
+  ac1 = ac2 /\
+  heu_mc_minpaths_maxvarimp c1 st1 ac1 = heu_mc_minpaths_maxvarimp c2 st2 ac2 /\
+  heu_mc_maxvarimp_minpaths c1 st1 ac1 = heu_mc_maxvarimp_minpaths c2 st2 ac2.
+Proof. exact heuristics_after_from_parser. Qed.
+Print Assumptions C12_heuristics_choose_alike.
